@@ -1382,6 +1382,11 @@ func (area) Run(c *core.Ctx) error {
 			runPlanExec(c, peGen(rng))
 			continue
 		}
+		if i%50 == 4 {
+			// round 12: several tasks in the real pool's queue, saturation, cancellation between Submit and dequeue
+			runPoolQueue(c, rng)
+			continue
+		}
 		if i%50 == 7 {
 			// random order of 1-5 pooled stages, each Complete() hook panics with probability 1/3
 			var sb strings.Builder
